@@ -995,7 +995,7 @@ func c09BinE(op *C09Op, l, r *C09Expr) *C09Expr { return &C09Expr{Kind: C09Bin, 
 
 func (g *c09Gen) pick(xs ...string) string { return xs[g.r.IntN(len(xs))] }
 
-var c09NumLits = []string{"0", "1", "2", "3", "7", "10", "-1", "1.5"}
+var c09NumLits = []string{"0", "1", "2", "3", "7", "10", "-1", "1.5", "1e3", "2.5e1", "1e-2"}
 var c09StrLits = []string{`"a"`, `"b c"`, `"#x"`, `"p)q"`, `""`, `"a|b"`, `"x,y"`}
 
 func (g *c09Gen) atom(s c09Sort, c c09Ctx) *C09Expr {
